@@ -21,7 +21,8 @@ From Verif Require Import Base.Prelude Model.Balance Proofs.BalanceSum Proofs.Ba
 From Verif Require Model.Reputation Model.NeoFSID Model.Config Model.Audit Model.Estimations
   Model.Placement Model.Container Model.Vote Model.NeoFSVote
   Model.Gas Model.ProxyProc Model.Alphabet Model.NeoFSGas Model.GasWorld
-  Model.Netmap Model.NNS Proofs.NNSBase Proofs.NNSAuth Model.MigStore Model.Migration.
+  Model.Netmap Model.NNS Proofs.NNSBase Proofs.NNSAuth Model.MigStore Model.Migration
+  Model.WitnessSmall.
 Import Multisig.
 
 (** ** (a) Thresholds *)
@@ -372,6 +373,37 @@ Theorem C03_to_menv_sound : forall c e0 h, Migration.witnessed (to_menv c e0) h 
 Proof. exact to_menv_sound. Qed.
 Print Assumptions C03_to_menv_sound.
 
+(** container.startContainerEstimation / stopContainerEstimation
+    (Model/WitnessSmall.v): Alphabet-gated notifications, no storage. *)
+Theorem C03_inert_Estimation_signals : forall (S : Type) (s : S) c a o r,
+  required (sm_key o) = Some r -> eval_req c a r = false ->
+  WitnessSmall.sstep s (to_sop c a o) = (s, VFault, []).
+Proof. exact @inert_Estimation_signals. Qed.
+Print Assumptions C03_inert_Estimation_signals.
+
+(** alphabet.vote (Model/WitnessSmall.v): the state is the candidate the
+    contract's NEO votes for. *)
+Theorem C03_inert_Vote : forall target c a cur index accepts epoch cands r,
+  required (KAlphabet, "vote", 2%nat) = Some r -> eval_req c a r = false ->
+  WitnessSmall.vote_step target (to_vctx c a cur index accepts) epoch cands = (target, VFault).
+Proof. exact inert_Vote. Qed.
+Print Assumptions C03_inert_Vote.
+
+(** The [_deploy] / [_initialize] rows ([RNever]): the requirement is never
+    met, and the platform (System.Contract.Call: "invalid method name (starts
+    with '_')", modelled by [vm_invoke]) never enters the body, whatever it
+    is; every other row of the table is a callable name. *)
+Theorem C03_inert_Underscore : forall (S N : Type) k m n r c a (body : S -> outcome (S * val * list N)) s,
+  required (k, m, n) = Some r -> r = RNever ->
+  eval_req c a r = false /\ WitnessSmall.vm_invoke m body s = (s, VFault, []).
+Proof. exact @inert_Underscore. Qed.
+Print Assumptions C03_inert_Underscore.
+
+Theorem C03_only_underscore_refused : forall k m n r,
+  required (k, m, n) = Some r -> r <> RNever -> WitnessSmall.vm_callable m = true.
+Proof. exact other_rows_callable. Qed.
+Print Assumptions C03_only_underscore_refused.
+
 (** ** Which rows have a proved inertness theorem *)
 Definition proved_rows : list (mkey * string) := [
   ((KBalance, "burn", 3%nat), "C03_inert_Balance, C03_inert_Container");
@@ -438,7 +470,29 @@ Definition proved_rows : list (mkey * string) := [
   ((KNNS, "update", 3%nat), "C03_inert_Update");
   ((KProcessing, "update", 3%nat), "C03_inert_Update");
   ((KProxy, "update", 3%nat), "C03_inert_Update");
-  ((KReputation, "update", 3%nat), "C03_inert_Update")
+  ((KReputation, "update", 3%nat), "C03_inert_Update");
+  ((KContainer, "startContainerEstimation", 1%nat), "C03_inert_Estimation_signals");
+  ((KContainer, "stopContainerEstimation", 1%nat), "C03_inert_Estimation_signals");
+  ((KAlphabet, "vote", 2%nat), "C03_inert_Vote");
+  ((KAlphabet, "_deploy", 2%nat), "C03_inert_Underscore (platform rule)");
+  ((KAudit, "_deploy", 2%nat), "C03_inert_Underscore (platform rule)");
+  ((KBalance, "_deploy", 2%nat), "C03_inert_Underscore (platform rule)");
+  ((KContainer, "_deploy", 2%nat), "C03_inert_Underscore (platform rule)");
+  ((KNeoFS, "_deploy", 2%nat), "C03_inert_Underscore (platform rule)");
+  ((KNeoFSID, "_deploy", 2%nat), "C03_inert_Underscore (platform rule)");
+  ((KNetmap, "_deploy", 2%nat), "C03_inert_Underscore (platform rule)");
+  ((KNNS, "_deploy", 2%nat), "C03_inert_Underscore (platform rule)");
+  ((KProcessing, "_deploy", 2%nat), "C03_inert_Underscore (platform rule)");
+  ((KProxy, "_deploy", 2%nat), "C03_inert_Underscore (platform rule)");
+  ((KReputation, "_deploy", 2%nat), "C03_inert_Underscore (platform rule)");
+  ((KAlphabet, "_initialize", 0%nat), "C03_inert_Underscore (platform rule)");
+  ((KBalance, "_initialize", 0%nat), "C03_inert_Underscore (platform rule)");
+  ((KContainer, "_initialize", 0%nat), "C03_inert_Underscore (platform rule)");
+  ((KNeoFS, "_initialize", 0%nat), "C03_inert_Underscore (platform rule)");
+  ((KNeoFSID, "_initialize", 0%nat), "C03_inert_Underscore (platform rule)");
+  ((KNetmap, "_initialize", 0%nat), "C03_inert_Underscore (platform rule)");
+  ((KNNS, "_initialize", 0%nat), "C03_inert_Underscore (platform rule)");
+  ((KReputation, "_initialize", 0%nat), "C03_inert_Underscore (platform rule)")
 ].
 
 (** Rows for which there is nothing to prove: the requirement is [ROpen]. *)
@@ -447,20 +501,19 @@ Definition trivially_open (k : mkey) : bool :=
 
 Definition is_proved (k : mkey) : bool := existsb (fun x => mkey_eqb k (fst x)) proved_rows.
 
-(** Rows covered only by the sweep of harness/witness_test.go: no integrated
-    model has alphabet.vote, container.start/stopContainerEstimation, nor the
-    VM rule that makes the [_deploy] / [_initialize] entry points uncallable. *)
+(** Rows covered only by the sweep of harness/witness_test.go: none is left. *)
 Definition swept_only_rows : list mkey :=
   filter (fun k => negb (is_proved k) && negb (trivially_open k) = true) (map fst table).
 
 (** Every listed row is a row of the table, is listed once, is the key of one
-    of the operations of the models above; 65 of the 90 rows are proved, 3 are
-    open with nothing to prove, 22 are swept only. *)
+    of the operations of the models above; 87 of the 90 rows are proved, the
+    other 3 are open ([ROpen]: the requirement is always met, there is nothing
+    to prove), none is swept only. *)
 Theorem C03_models_cover :
   forallb (fun x => match required (fst x) with Some _ => true | None => false end) proved_rows = true /\
   keys_distinct (map fst proved_rows) = true /\
   (length proved_rows, length (filter trivially_open (map fst table)), length swept_only_rows, length table)
-    = (65, 3, 22, 90)%nat /\
+    = (87, 3, 0, 90)%nat /\
   (* the keys the models' operations are mapped to are exactly the listed ones *)
   (forall o, is_proved (bop_key o) = true) /\
   (forall o, is_proved (nid_key o) = true) /\
@@ -472,7 +525,10 @@ Theorem C03_models_cover :
   (forall e o k, gw_key e o = Some k -> is_proved k = true) /\
   (forall o, is_proved (nm_key o) = true) /\
   (forall o k, In k (nns_keys o) -> is_proved k = true) /\
-  (forall k, is_proved (k, "update", 3%nat) = true).
+  (forall k, is_proved (k, "update", 3%nat) = true) /\
+  (forall o, is_proved (sm_key o) = true) /\
+  is_proved (KAlphabet, "vote", 2%nat) = true /\
+  (forall k m n, required (k, m, n) = Some RNever -> is_proved (k, m, n) = true).
 Proof.
   split; [vm_compute; reflexivity|]. split; [vm_compute; reflexivity|]. split; [vm_compute; reflexivity|].
   split; [intros []; reflexivity|]. split; [intros []; reflexivity|]. split; [intros []; reflexivity|].
@@ -487,7 +543,12 @@ Proof.
   split; [intros o; destruct o; reflexivity|].
   split; [intros o kk H; destruct o; cbn [nns_keys In] in H;
           repeat (destruct H as [<-|H]; [reflexivity|]); destruct H|].
-  intros k; destruct k; reflexivity.
+  split; [intros k; destruct k; reflexivity|].
+  split; [intros o; destruct o; reflexivity|]. split; [reflexivity|].
+  intros k m n Hr. apply lookup_In in Hr.
+  assert (Hall : forallb (fun x => if req_eqb (snd x) RNever then is_proved (fst x) else true) table = true)
+    by (vm_compute; reflexivity).
+  rewrite forallb_forall in Hall. specialize (Hall _ Hr). exact Hall.
 Qed.
 Print Assumptions C03_models_cover.
 
@@ -554,3 +615,33 @@ Example C03_checker_flags :
       mkCase (KNetmap, "newEpoch", 1%nat) (mkWCtx [exCommittee] []) (exArgs []) OHaltOther false ]
   = [ Some VUnmetEffect; None; None; Some VUnmodelledEffect; None; Some VMetRefused; Some VUnmetNotRefused ].
 Proof. vm_compute. reflexivity. Qed.
+
+(** The small models: with the Alphabet's witness the estimation signals are
+    emitted and the vote is cast; without it nothing happens.  A callable
+    method name reaches its body, an underscore name does not. *)
+Example C03_small_models_nonvacuous :
+  let yes := mkWCtx [exAlpha] [] in
+  let no := mkWCtx [exCommittee] [] in
+  let a := exArgs [] in
+  ( WitnessSmall.sstep tt (to_sop yes a (WitnessSmall.SStart false 5%Z)),
+    WitnessSmall.sstep tt (to_sop no a (WitnessSmall.SStart true 5%Z)),
+    WitnessSmall.vote_step None (to_vctx yes a 7 0 (fun _ => true)) 7 [exA; exB],
+    WitnessSmall.vote_step None (to_vctx no a 7 0 (fun _ => true)) 7 [exA; exB],
+    WitnessSmall.vm_invoke (S := nat) (N := unit) "put" (fun s => Halt (Datatypes.S s, VNull, [tt])) 0%nat,
+    WitnessSmall.vm_invoke (S := nat) (N := unit) "_deploy" (fun s => Halt (Datatypes.S s, VNull, [tt])) 0%nat )
+  = ( (tt, VNull, [WitnessSmall.NStartEstimation 5%Z]), (tt, VFault, []),
+      (Some exA, VNull), (None, VFault),
+      (1%nat, VNull, [tt]), (0%nat, VFault, []) ).
+Proof. vm_compute. reflexivity. Qed.
+
+(** Reputation, NeoFSID, the Netmap configuration: met => the step stores. *)
+Example C03_store_models_nonvacuous :
+  let yes := mkWCtx [exAlpha] [] in
+  let a := exArgs [] in
+  ( snd (Reputation.rstep ∅ (to_rop yes a 3%Z [1%N] [2%N])),
+    bool_decide (fst (Reputation.rstep ∅ (to_rop yes a 3%Z [1%N] [2%N])) = ∅),
+    snd (NeoFSID.nstep ∅ (to_nidop yes a (NeoFSID.NAdd false (repeat 5%N 25) [repeat 6%N 33]))),
+    bool_decide (fst (NeoFSID.nstep ∅ (to_nidop yes a (NeoFSID.NAdd false (repeat 5%N 25) [repeat 6%N 33]))) = ∅) )
+  = (VNull, false, VNull, false).
+Proof. vm_compute. reflexivity. Qed.
+
